@@ -485,8 +485,10 @@ func Datetime(errBuf *strings.Builder, validName, objName, fieldName string, tv 
 			defaultSplit[i] = split
 		}
 	}
-	_, err := time.Parse(GetTimeFmt(DateTimeFmt, defaultSplit...), tv.String())
-	if err == nil {
+	layout := GetTimeFmt(DateTimeFmt, defaultSplit...)
+	_, err := time.Parse(layout, tv.String())
+	// time.Parse 允许 1 位的小时和秒后的小数, 这里要求与格式等长, 如: 2006-01-02 15:04:05
+	if err == nil && len(tv.String()) == len(layout) {
 		return
 	}
 
